@@ -46,6 +46,7 @@ type World struct {
 	ctx       sdk.Context
 	cdc       codec.BinaryCodec
 	k         *keeper.Keeper
+	discard   bool // the current delivery runs on a branch that will be thrown away
 	msgSrv    types.MsgServer
 
 	mintingDenom string
